@@ -35,10 +35,20 @@ def model_check_steps():
     return st, tr
 
 
-def build_histories(tier, seed, rnd):
-    n_edges = 220 if tier == "quick" else 6000
+PLAN = {
+    # universe -> (edges quick, edges thorough, extra growth/opening histories quick, thorough)
+    "core": (200, 30000, 20, 300),
+    "c18": (50, 6000, 0, 0),       # vanish-heavy (gift-wraps, several authors)
+    "sz": (0, 0, 30, 400),         # map geometry: ends on / around the chunk boundary, multi-chunk events
+}
+
+
+def build_histories(tier, seed, rnd, uname="core"):
+    q_edges, t_edges, q_extra, t_extra = PLAN[uname]
+    n_edges = q_edges if tier == "quick" else t_edges
+    n_extra = q_extra if tier == "quick" else t_extra
     hs = []
-    u = json.load(open(S.universe_path("core")))
+    u = json.load(open(S.universe_path(uname)))
     n = u["n"]
 
     def cont_for(last):
@@ -50,20 +60,23 @@ def build_histories(tier, seed, rnd):
         c.append({"k": "store", "a": rnd.randint(1, n)})
         return c
     hs.append(dict(ops=[{"k": "create"}], cont=[{"k": "store", "a": 1}, {"k": "store", "a": 3}, {"k": "store", "a": 1}]))
-    edges, total = S.sample_edges("core", n_edges, rnd)
+    if n_edges:
+        edges, total = S.sample_edges(uname, n_edges, rnd)
+    else:
+        edges, total = [], 0
     for h in edges:
         if not h or h[-1]["k"] == "rebuild":
             continue
         hs.append(dict(ops=h, cont=cont_for(h[-1])))
     # interrupted opening of an existing store, and growth: long runs of stores so that the last call
     # pads, grows the file (set_len / remap) at various fill levels (dev profile: 2048-byte chunks)
-    for j in range(20 if tier == "quick" else 300):
+    for j in range(n_extra):
         k = rnd.randint(2, 14)
         pre = [{"k": "store", "a": rnd.randint(1, n)} for _ in range(k)]
         if rnd.random() < 0.3:
             pre.insert(rnd.randint(0, len(pre)), {"k": "reopen", "a": 0})
         last = rnd.choice([{"k": "store", "a": rnd.randint(1, n)}] * 4 + [{"k": "reopen", "a": 0}, {"k": "remove", "a": rnd.randint(1, n)},
-                          {"k": "vanish", "a": rnd.randint(1, 2)}])
+                          {"k": "vanish", "a": rnd.randint(1, u["nauthors"])}])
         hs.append(dict(ops=pre + [last], cont=cont_for(last)))
     for i, h in enumerate(hs):
         h["id"] = i
@@ -200,67 +213,86 @@ def run(prop, tier, seed, replay=None):
     V = C.Verdict(prop, tier, seed, "fault_enumeration")
     rnd = random.Random("C13-%d" % seed)
     bindir = C.build_harness("dev", bins=["crashdrv"])
-    wd = C.workdir("C13_%s" % tier)
-    upath = S.universe_path("core")
-    u = json.load(open(upath))
-    fpath = os.path.join(wd, "probes.json")
-    json.dump(F.probe_filters(u), open(fpath, "w"))
+    wd0 = C.workdir("C13_%s" % tier)
 
     if replay:
         rp = json.load(open(replay))["replay"]
-        hs = [dict(id=0, ops=rp["ops"], cont=rp["cont"])]
+        plan = [(rp.get("universe_name", "core"), [dict(id=0, ops=rp["ops"], cont=rp["cont"])], 0)]
         mst = mtr = 1
-        total = 0
     else:
         mst, mtr = model_check_steps()
         C.log("[mc] PocketStoreSteps: %d states, %d transitions" % (mst, mtr))
-        hs, total, _ = build_histories(tier, seed, rnd)
-    t0 = time.time()
-    tfiles, lost = run_crashdrv(bindir, upath, hs, wd, fpath)
-    t1 = time.time()
-    bad, img, lines = judge(upath, tfiles, fpath)
-    C.log("[C13] %d histories, %d images, crashdrv %.1fs, judge %.1fs, %d bad images" % (len(hs), lines, t1 - t0, time.time() - t1, len(bad)))
-    # real kills (SIGKILL of a child process at the yield point) for a seed-sampled subset
-    t2 = time.time()
-    kpath, kills, kdiffer = real_kills(bindir, upath, hs, tfiles, wd, fpath, rnd, 60 if tier == "quick" else 800)
-    if kpath and kills:
-        kbad, _, klines = judge(upath, [kpath], fpath)
-        for b in kbad:
-            b["real_kill"] = True
-        bad += kbad
-        C.log("[C13] %d real kills in %.1fs: %d judged bad, %d differ from the image of the same point" %
-              (kills, time.time() - t2, len(kbad), kdiffer))
-    byh = {h["id"]: h for h in hs}
+        plan = []
+        for uname in PLAN:
+            hs, total, _ = build_histories(tier, seed, rnd, uname)
+            plan.append((uname, hs, total))
+
+    lines = kills = kdiffer = nhist = 0
+    img_all, lost_all, cover = [], [], {}
+    sample_hist = []
     seen = {}
-    for b in bad:
-        key = "C13:%s:%s:%s%s" % ("+".join(sorted(b["v"])), b["k"], b["point"], ":real_kill" if b.get("real_kill") else "")
-        seen[key] = seen.get(key, 0) + 1
-        if seen[key] > 2:
+    for uname, hs, total in plan:
+        if not hs:
             continue
-        h = byh.get(b["h"], {})
-        what = "image taken at yield point %s (occurrence %d) inside %s(%d) of history %s: %s" % (
-            b["point"], b["occ"], b["k"], b["a"], [[o["k"], o.get("a", 0)] for o in h.get("ops", [])][:30], ",".join(sorted(b["v"])))
-        V.violation(key, what, dict(kind="crash_image", ops=h.get("ops"), cont=h.get("cont"), point=b["point"], occ=b["occ"],
-                                    clauses=sorted(b["v"])))
-    for h in lost:
-        V.violation("C13:harness_died:%s" % h["ops"][-1]["k"],
-                    "the process died or hung while exploring kill points of history %s" % h["ops"][:30],
-                    dict(kind="crash_image", ops=h["ops"], cont=h["cont"], point="?", occ=0, clauses=["Died"]))
+        wd = os.path.join(wd0, uname)
+        os.makedirs(wd, exist_ok=True)
+        upath = S.universe_path(uname)
+        u = json.load(open(upath))
+        fpath = os.path.join(wd, "probes.json")
+        json.dump(F.probe_filters(u), open(fpath, "w"))
+        t0 = time.time()
+        tfiles, lost = run_crashdrv(bindir, upath, hs, wd, fpath)
+        t1 = time.time()
+        bad, img, n = judge(upath, tfiles, fpath)
+        C.log("[C13] %s: %d histories, %d images, crashdrv %.1fs, judge %.1fs, %d bad images" % (uname, len(hs), n, t1 - t0, time.time() - t1, len(bad)))
+        # real kills (SIGKILL of a child process at the yield point) for a seed-sampled subset
+        t2 = time.time()
+        share = max(10, int((60 if tier == "quick" else 1200) * len(hs) / max(1, sum(len(p[1]) for p in plan))))
+        kpath, k, kd = real_kills(bindir, upath, hs, tfiles, wd, fpath, rnd, share)
+        if kpath and k:
+            kbad, _, _ = judge(upath, [kpath], fpath)
+            for b in kbad:
+                b["real_kill"] = True
+            bad += kbad
+            C.log("[C13] %s: %d real kills in %.1fs: %d judged bad, %d differ from the image of the same point" % (uname, k, time.time() - t2, len(kbad), kd))
+        kills += k
+        kdiffer += kd
+        lines += n
+        nhist += len(hs)
+        img_all += img
+        cover[uname] = dict(edge_cover_size=total, histories=len(hs), images=n)
+        sample_hist += [dict(universe=uname, ops=[[o["k"], o.get("a", 0)] for o in h["ops"]][:12], cont=h["cont"]) for h in hs[:2]]
+        byh = {h["id"]: h for h in hs}
+        for b in bad:
+            key = "C13:%s:%s:%s%s" % ("+".join(sorted(b["v"])), b["k"], b["point"], ":real_kill" if b.get("real_kill") else "")
+            seen[key] = seen.get(key, 0) + 1
+            if seen[key] > 2:
+                continue
+            h = byh.get(b["h"], {})
+            what = "image taken at yield point %s (occurrence %d) inside %s(%d) of history %s of universe %s: %s" % (
+                b["point"], b["occ"], b["k"], b["a"], [[o["k"], o.get("a", 0)] for o in h.get("ops", [])][:30], uname, ",".join(sorted(b["v"])))
+            V.violation(key, what, dict(kind="crash_image", universe_name=uname, ops=h.get("ops"), cont=h.get("cont"), point=b["point"],
+                                        occ=b["occ"], clauses=sorted(b["v"])))
+        for h in lost:
+            V.violation("C13:harness_died:%s" % h["ops"][-1]["k"],
+                        "the process died or hung while exploring kill points of history %s (universe %s)" % (h["ops"][:30], uname),
+                        dict(kind="crash_image", universe_name=uname, ops=h["ops"], cont=h["cont"], point="?", occ=0, clauses=["Died"]))
+        lost_all += lost
     points = {}
-    for i in img:
+    for i in img_all:
         k = "%s:%s:%s" % (i["k"], i["point"], i["which"])
         points[k] = points.get(k, 0) + 1
-    distinct_points = len({(i["k"], i["point"]) for i in img})
+    distinct_points = len({(i["k"], i["point"]) for i in img_all})
     V.coverage = dict(
-        evaluations=lines, distinct_nontrivial=len({(i["k"], i["point"], i["which"]) for i in img if i["which"] in ("pre", "post", "other")}),
+        evaluations=lines, distinct_nontrivial=len({(i["k"], i["point"], i["which"]) for i in img_all if i["which"] in ("pre", "post", "other")}),
         rule="cases = images of the durable files taken at a yield point (pocket_db::verif::point) at one occurrence inside the "
-             "interrupted last call of a history; histories = TLC edge cover of PocketStore.tla on universe core (seed-sampled in "
-             "the quick tier) + creation + interrupted opening + growth runs; distinct non-trivial = distinct (call kind, yield "
+             "interrupted last call of a history; histories = TLC edge cover of PocketStore.tla on universes core and c18 (seed-sampled) "
+             "+ creation + interrupted opening + growth runs (universes core, sz); distinct non-trivial = distinct (call kind, yield "
              "point, recovered = pre | post | partial) where pre and post differ",
-        samples=[dict(ops=[[o["k"], o.get("a", 0)] for o in h["ops"]][:12], cont=h["cont"]) for h in hs[:3]],
-        histories=len(hs), edge_cover_size=total, distinct_call_points=distinct_points,
+        samples=sample_hist[:4],
+        histories=nhist, universes=cover, distinct_call_points=distinct_points,
         image_outcomes=points, model=dict(module="PocketStoreSteps.tla", configs=STEP_CFGS, states=mst, transitions=mtr),
-        harness_batches_lost=len(lost), real_kills=kills, real_kills_differing_from_image=kdiffer,
+        harness_batches_lost=len(lost_all), real_kills=kills, real_kills_differing_from_image=kdiffer,
     )
     V.assumptions = ["kill = process death with the OS surviving: an image is a copy of event.map and lmdb/data.mdb taken while the "
                      "process is parked at the yield point (page cache contents); power loss is out of scope (NO_SYNC)",
